@@ -13,7 +13,8 @@ import OpcuaModel.Model.Limits
   `LegalAccepted` is (2') "a message within the advertised limits (0 = none) is accepted".
 
   At full strength the property is FALSE for the unchanged code.  Proved here:
-  `C06_partial` / `C06_legal_partial` under explicit guards (all four clauses,
+  `C06_partial` / `C06_legal_partial` under explicit guards (all four clauses; (2') for
+  requests without any guard since the zero-limit repair,
   every policy row, every mode, every message size), that the defaults satisfy
   the guards, and one counterexample theorem per recorded finding — most of them
   for a whole family of configurations, each also at its witness.
@@ -69,19 +70,23 @@ theorem C06_partial (hello ack : Ack) (a : AlgoParams) (ha : a ∈ Gen.symmetric
     rw [(hview _).2]
     cases sender <;> simp [Side.peer, advertised, maySend] at hw ⊢ <;> omega
 
-/-- (2') under guards: receiver limits not zero and, for the client as receiver, what it
-    advertised not above what it adopted from the Acknowledge -/
+/-- (2'): a message within the limits the receiver advertised (0 = no limit), in chunks the
+    sender may use, is accepted.  For requests (client sends) there is NO guard left: the
+    server's receive path honours exactly what it advertised, 0 included.  For responses the
+    guard remains that the client advertised limits which are not above the ones it adopted
+    from the Acknowledge, and a receive buffer not above the server's (finding
+    client-limits-from-ack / client-recv-direction otherwise). -/
 theorem C06_legal_partial (hello ack : Ack) (a : AlgoParams) (m : Mode) (sender : Side) (n : Nat)
-    (g1 : ack.maxMsg ≠ 0) (g2 : ack.maxChunks ≠ 0)
-    (g3 : sender = .server → hello.maxMsg ≠ 0 ∧ hello.maxMsg ≤ ack.maxMsg ∧
-                             hello.maxChunks ≠ 0 ∧ hello.maxChunks ≤ ack.maxChunks)
+    (g3 : sender = .server → hello.maxMsg ≠ 0 ∧ hello.maxMsg ≤ (clientAdopt ack).maxMsg ∧
+                             hello.maxChunks ≠ 0 ∧ hello.maxChunks ≤ (clientAdopt ack).maxChunks)
     (g4 : sender = .server → hello.rcv ≤ ack.rcv) :
     LegalAccepted hello ack a m sender n := by
   intro hw hex
-  -- receive loop invariant: every chunk passes the size check; intermediates ≤ maxChunks; total ≤ maxMsg
+  -- receive loop invariant: every chunk passes the size check; a non-zero limit is respected
   have key : ∀ (rv : Ack) (bodies : List Nat) (held sum : Nat),
       (∀ b ∈ bodies, wireLen a m b ≤ (rv.rcv : Int)) →
-      held + bodies.length ≤ rv.maxChunks + 1 → sum + bodies.sum ≤ rv.maxMsg →
+      (rv.maxChunks ≠ 0 → held + bodies.length ≤ rv.maxChunks + 1) →
+      (rv.maxMsg ≠ 0 → sum + bodies.sum ≤ rv.maxMsg) →
       recvLoop rv (bodies.map fun b => (wireLen a m b, b)) held sum = .ok := by
     intro rv bodies
     induction bodies with
@@ -94,17 +99,20 @@ theorem C06_legal_partial (hello ack : Ack) (a : AlgoParams) (m : Mode) (sender 
         simp only [List.map, recvLoop]
         simp only [List.sum_cons, List.sum_nil] at hsum
         have h1 : ¬ wireLen a m b > (rv.rcv : Int) := by omega
-        have h2 : ¬ sum + b > rv.maxMsg := by omega
+        have h2 : ¬ (rv.maxMsg ≠ 0 ∧ sum + b > rv.maxMsg) := by
+          intro ⟨h0, hgt⟩; have := hsum h0; omega
         simp [h1, h2]
       | cons c rest' =>
         simp only [List.map, recvLoop]
         simp only [List.length_cons] at hcnt
         simp only [List.sum_cons] at hsum
         have h1 : ¬ wireLen a m b > (rv.rcv : Int) := by omega
-        have h2 : ¬ held + 1 > rv.maxChunks := by omega
+        have h2 : ¬ (rv.maxChunks ≠ 0 ∧ held + 1 > rv.maxChunks) := by
+          intro ⟨h0, hgt⟩; have := hcnt h0; omega
         simp only [h1, h2, if_false]
         have := ih (held + 1) (sum + b) (fun x hx => hfit x (by simp [hx]))
-          (by simp only [List.length_cons]; omega) (by simp only [List.sum_cons]; omega)
+          (fun h0 => by have := hcnt h0; simp only [List.length_cons]; omega)
+          (fun h0 => by have := hsum h0; simp only [List.sum_cons]; omega)
         simpa [List.map] using this
   unfold receive
   apply key
@@ -114,26 +122,47 @@ theorem C06_legal_partial (hello ack : Ack) (a : AlgoParams) (m : Mode) (sender 
     · simp [Side.peer, viewOf, negotiate, advertised, maySend] at this ⊢; omega
     · have := g4 rfl
       simp [Side.peer, viewOf, negotiate, clientAdopt, advertised, maySend] at * ; omega
-  · simp only [exceeds, chunkCount] at hex
-    cases sender
-    · simp [Side.peer, viewOf, negotiate, advertised] at hex ⊢; omega
-    · obtain ⟨_, _, h3, h4⟩ := g3 rfl
-      simp [Side.peer, viewOf, negotiate, clientAdopt, advertised, g2] at hex ⊢; omega
-  · rw [chunkBodies_sum]
+  · intro h0
     simp only [exceeds, chunkCount] at hex
     cases sender
-    · simp [Side.peer, viewOf, negotiate, advertised] at hex ⊢; omega
+    · simp [Side.peer, viewOf, negotiate, advertised] at hex h0 ⊢; omega
+    · obtain ⟨_, _, h3, h4⟩ := g3 rfl
+      simp [Side.peer, viewOf, negotiate, advertised] at hex h0 h4 ⊢; omega
+  · intro h0
+    rw [chunkBodies_sum]
+    simp only [exceeds, chunkCount] at hex
+    cases sender
+    · simp [Side.peer, viewOf, negotiate, advertised] at hex h0 ⊢; omega
     · obtain ⟨h1, h2, _, _⟩ := g3 rfl
-      simp [Side.peer, viewOf, negotiate, clientAdopt, advertised, g1] at hex ⊢; omega
+      simp [Side.peer, viewOf, negotiate, advertised] at hex h0 h2 ⊢; omega
 
-/-- the current defaults (regenerated from uacp/conn.go) satisfy the guards: between a
-    default client and a default server clauses (1)–(3) hold for every policy, mode,
-    direction and every message the peer's limits allow -/
-theorem C06_defaults (a : AlgoParams) (ha : a ∈ Gen.symmetricRows) (m : Mode) (sender : Side) (n : Nat)
-    (h : ¬ exceeds (advertised defaultClientAck defaultServerAck sender.peer) n
-          (chunkCount a (viewOf defaultClientAck defaultServerAck sender) n)) :
-    Honoured defaultClientAck defaultServerAck a m sender n :=
-  C06_partial _ _ a ha m sender n (by decide) (by decide) (by decide) h
+/-- in particular every request within what the server advertised is accepted by the server,
+    for every configuration, policy, mode and size — 0 = no limit included (this was finding
+    zero-limit-server before the receive path was repaired) -/
+theorem C06_requests_accepted (hello ack : Ack) (a : AlgoParams) (m : Mode) (n : Nat) :
+    LegalAccepted hello ack a m .client n :=
+  C06_legal_partial hello ack a m .client n (fun h => by cases h) (fun h => by cases h)
+
+/-- a server that advertises "no limit" (0 / 0) opens a channel and takes a message of any size
+    in any number of chunks that fit its buffer -/
+theorem C06_zero_is_no_limit (a : AlgoParams) (m : Mode) (ack : Ack) (h0 : ack.maxMsg = 0) (h1 : ack.maxChunks = 0)
+    (bodies : List Nat) (hfit : ∀ b ∈ bodies, wireLen a m b ≤ (ack.rcv : Int)) :
+    receive a m ack bodies = .ok := by
+  have key : ∀ (bodies : List Nat), (∀ b ∈ bodies, wireLen a m b ≤ (ack.rcv : Int)) → ∀ held sum : Nat,
+      recvLoop ack (bodies.map fun b => (wireLen a m b, b)) held sum = .ok := by
+    intro bodies
+    induction bodies with
+    | nil => intros; simp [recvLoop]
+    | cons b rest ih =>
+      intro hfit held sum
+      have hb := hfit b (by simp)
+      have hlt : ¬ wireLen a m b > (ack.rcv : Int) := by omega
+      cases rest with
+      | nil => simp [recvLoop, hlt, h0]
+      | cons c rest' =>
+        simp only [List.map, recvLoop, hlt, h1, if_false, ne_eq, not_true_eq_false, false_and]
+        simpa [List.map] using ih (fun x hx => hfit x (by simp [hx])) (held + 1) (sum + b)
+  exact key bodies hfit 0 0
 
 /-! ### findings: where the full property fails (None policy, as confirmed over loopback) -/
 
@@ -234,35 +263,16 @@ theorem C06_witness_send_limit :
         (viewOf ⟨65535, 65535, 10000, 0⟩ defaultServerAck .client) 20000 = ([20024], .ok)) := by
   decide
 
-/-- FINDING zero-limit-server: a server that advertises MaxMessageSize 0 (= no limit) keeps
-    the 0 as its own limit and refuses every non-empty message … -/
-theorem C06_finding_zero_limit_server_msg (a : AlgoParams) (m : Mode) (ack : Ack) (h0 : ack.maxMsg = 0)
-    (b : Nat) (hb : 0 < b) (hfit : wireLen a m b ≤ (ack.rcv : Int)) :
-    receive a m ack [b] = .messageTooLarge := by
-  have h1 : ¬ wireLen a m b > (ack.rcv : Int) := by omega
-  simp [receive, recvLoop, h1, h0]
-  omega
-
-/-- … including the OpenSecureChannel request: no channel can be opened at all (whatever the
-    client sent in its Hello); and with MaxChunkCount 0 it refuses every message of more than one chunk -/
-theorem C06_finding_zero_limit_server_open_chunks (hello : Ack) :
-    openChannel (negotiate hello ⟨65535, 65535, 0, 512⟩) = .refusedByServer .messageTooLarge 132 53 ∧
-    ¬ exceeds (⟨65535, 65535, 0, 512⟩ : Ack) 53 1 ∧
-    receive Gen.symNone .none (viewOf hello ⟨8192, 8192, 2097152, 0⟩ .server) [8167, 8167, 3666] = .tooManyChunks ∧
-    ¬ exceeds (⟨8192, 8192, 2097152, 0⟩ : Ack) 20000 3 := by
-  refine ⟨?_, by decide, ?_, by decide⟩
+/-- regression witnesses of the repaired zero-limit defect: with MaxMessageSize 0 the OPN request
+    is taken and the channel opens; with MaxChunkCount 0 a three-chunk request is accepted -/
+theorem C06_zero_limit_witnesses (hello : Ack) :
+    openChannel (negotiate hello ⟨65535, 65535, 0, 512⟩) = .ok ∧
+    receive Gen.symNone .none (viewOf hello ⟨8192, 8192, 2097152, 0⟩ .server) [8167, 8167, 3666] = .ok := by
+  refine ⟨?_, ?_⟩
   · show openChannel (negotiate ⟨0, 0, 0, 0⟩ ⟨65535, 65535, 0, 512⟩) = _
     decide +kernel
   · show receive Gen.symNone .none ⟨8192, 8192, 2097152, 0⟩ [8167, 8167, 3666] = _
-    rfl
-
-/-- so (2') fails for the client as sender whenever the server advertises "no limit" -/
-theorem C06_finding_zero_limit_server :
-    ¬ LegalAccepted defaultClientAck ⟨65535, 65535, 0, 512⟩ Gen.symNone .none .client 300 := by
-  intro h
-  have := h (by decide) (by decide)
-  revert this
-  decide
+    decide +kernel
 
 /-- FINDING client-limits-from-ack: the client applies the limits of the Acknowledge (the
     server's limits for REQUESTS) to the responses it receives, not what it advertised.
@@ -278,7 +288,7 @@ theorem C06_finding_client_limits_from_ack :
 /-! non-vacuity of the guarded theorems: a symmetric and an asymmetric-but-harmless configuration -/
 example : Honoured ⟨65535, 65535, 0, 0⟩ ⟨65535, 8192, 2097152, 512⟩ Gen.symBasic256Sha256 .signAndEncrypt .client 500000 :=
   C06_partial _ _ _ (by decide) _ _ _ (by decide) (by decide) (by decide) (by decide)
-example : LegalAccepted ⟨65535, 65535, 100000, 10⟩ ⟨65535, 65535, 2097152, 512⟩ Gen.symNone .none .server 90000 :=
-  C06_legal_partial _ _ _ _ _ _ (by decide) (by decide) (by intro _; decide) (by intro _; decide)
+example : LegalAccepted ⟨65535, 65535, 100000, 10⟩ ⟨65535, 65535, 0, 0⟩ Gen.symNone .none .server 90000 :=
+  C06_legal_partial _ _ _ _ _ _ (by intro _; decide) (by intro _; decide)
 
 end Opcua.Props.C06
